@@ -2685,7 +2685,10 @@ fn generate_constraints_expr(
             }
         }
         ExprKind::TaskBlock(block) => {
+            // a task body is its own function: an enclosing loop cannot be left or continued from it
+            ctx.loop_stack.push(None);
             generate_constraints_expr(ctx, polyvar_scope, Mode::Syn, block);
+            ctx.loop_stack.pop();
             constrain(
                 ctx,
                 &node_ty,
@@ -3603,7 +3606,8 @@ fn generate_constraints_func_def_helper(
     // arguments
     let ty_args = generate_constraints_func_args(ctx, &polyvar_scope, args);
 
-    // body
+    // body (`break`/`continue` cannot reach a loop outside of this function)
+    ctx.loop_stack.push(None);
     ctx.func_ret_stack.push(Prov::FuncOut(node.clone()));
     let ty_body = TypeVar::fresh(ctx, Prov::FuncOut(node.clone()));
     if let Some(out_annot) = out_annot {
@@ -3616,6 +3620,7 @@ fn generate_constraints_func_def_helper(
         generate_constraints_expr(ctx, &polyvar_scope, Mode::ana(&ty_body), body);
     }
     ctx.func_ret_stack.pop();
+    ctx.loop_stack.pop();
 
     TypeVar::make_func(ty_args, ty_body, Reason::Node(node.clone()))
 }
